@@ -1220,3 +1220,54 @@ Proof.
   unfold sb_inv. destruct b as [free owed]. cbn [sb_step fst sb_free sb_owed]. unfold sb_grant, peer_window. cbn [sb_free sb_owed].
   intros [H1 H2]. lia.
 Qed.
+
+(* ------------------------------------------------------------------ *)
+(** * The connection receive window stays open and never exceeds its configuration *)
+
+(** what the peer may still send *)
+Definition cr_window (s : crecv) : Z := cr_granted s - cr_consumed s.
+
+Definition cr_inv (icw : Z) (s : crecv) : Prop :=
+  0 <= cr_acc s < Z.max 1 (icw / 2) /\
+  cr_window s = (if cr_enlarged s then icw else DEFAULT_INITIAL_WINDOW_SIZE) - cr_acc s.
+
+(** a compliant peer sends within the window it has *)
+Definition cr_legal (s : crecv) (e : crev) : Prop :=
+  match e with CEnlarge => True | CData wire => 0 <= wire <= cr_window s end.
+
+Lemma crecv_step_inv icw s e :
+  DEFAULT_INITIAL_WINDOW_SIZE <= icw -> cr_inv icw s -> cr_legal s e -> cr_inv icw (crecv_step true icw s e).
+Proof.
+  unfold cr_inv, cr_legal, cr_window, DEFAULT_INITIAL_WINDOW_SIZE. intros Hi [Ha Hw] L.
+  assert (Hh : 32767 <= icw / 2) by (apply Z.div_le_lower_bound; lia).
+  destruct s as [g c a en]. cbn [cr_granted cr_consumed cr_acc cr_enlarged] in *.
+  destruct e as [|wire]; unfold crecv_step, on_data_credit, DEFAULT_INITIAL_WINDOW_SIZE; cbn [cr_granted cr_consumed cr_acc cr_enlarged].
+  - destruct en; cbn [andb cr_granted cr_consumed cr_acc cr_enlarged]; split; lia.
+  - destruct (icw / 2 <=? a + wire) eqn:T; cbn [cr_granted cr_consumed cr_acc cr_enlarged].
+    + apply Z.leb_le in T. split; [lia|]. destruct en; lia.
+    + apply Z.leb_gt in T. split; [lia|]. destruct en; lia.
+Qed.
+
+Fixpoint cr_legal_run (icw : Z) (s : crecv) (evs : list crev) : Prop :=
+  match evs with
+  | [] => True
+  | e :: r => cr_legal s e /\ cr_legal_run icw (crecv_step true icw s e) r
+  end.
+
+Lemma crecv_run_inv icw evs : forall s,
+  DEFAULT_INITIAL_WINDOW_SIZE <= icw -> cr_inv icw s -> cr_legal_run icw s evs ->
+  cr_inv icw (fold_left (crecv_step true icw) evs s).
+Proof.
+  induction evs as [|e r IH]; intros s Hi I L; cbn [fold_left]; [exact I|].
+  cbn [cr_legal_run] in L. destruct L as [Le Lr]. apply IH; try assumption. apply crecv_step_inv; assumption.
+Qed.
+
+Lemma cr_inv_window icw s :
+  DEFAULT_INITIAL_WINDOW_SIZE <= icw -> cr_inv icw s ->
+  cr_window s <= icw /\ (cr_enlarged s = true -> icw / 2 < cr_window s).
+Proof.
+  unfold cr_inv, DEFAULT_INITIAL_WINDOW_SIZE. intros Hi [Ha Hw].
+  assert (Hh : 32767 <= icw / 2) by (apply Z.div_le_lower_bound; lia).
+  assert (Hd : 2 * (icw / 2) <= icw) by (apply Z.mul_div_le; lia).
+  destruct (cr_enlarged s); split; try lia; intros; try lia; discriminate.
+Qed.
